@@ -68,12 +68,12 @@ type SimCfg struct {
 	// PCTDepth > 0 selects the PCT policy (Burckhardt et al.): every task gets a random priority, the
 	// highest-priority enabled task always runs, and at PCTDepth-1 random hook points (drawn in
 	// [0,PCTSpan)) the running task's priority drops below all others. Q and WindowBias are ignored.
-	PCTDepth int
-	PCTSpan  int
-	StarveID     int   // task id not scheduled during [StarveFrom, StarveFrom+StarveLen) decisions unless alone; -1: none
-	StarveFrom   int
-	StarveLen    int
-	FullLog      bool
+	PCTDepth   int
+	PCTSpan    int
+	StarveID   int // task id not scheduled during [StarveFrom, StarveFrom+StarveLen) decisions unless alone; -1: none
+	StarveFrom int
+	StarveLen  int
+	FullLog    bool
 }
 
 type Ev struct {
@@ -136,7 +136,7 @@ type Sim struct {
 	Hang     *HangReport
 	Leaked   int
 	Panics   []string // panics of task goroutines (each would have ended the process)
-	Ambig    int // selects entered with more than one ready case (run must be discarded)
+	Ambig    int      // selects entered with more than one ready case (run must be discarded)
 
 	seq        uint64
 	Events     []Ev
@@ -212,15 +212,15 @@ func NewSim(tape *Tape, cfg SimCfg) *Sim {
 		}
 	}
 	return &Sim{
-		pctPoints:  pts,
-		pctLow:     -1,
-		tape:       tape,
-		cfg:        cfg,
-		yielded:    make(chan struct{}),
-		arrive:     make(chan struct{}, 1),
-		start:      time.Now(),
-		evHash:     1469598103934665603,
-		ilHash:     1469598103934665603,
+		pctPoints: pts,
+		pctLow:    -1,
+		tape:      tape,
+		cfg:       cfg,
+		yielded:   make(chan struct{}),
+		arrive:    make(chan struct{}, 1),
+		start:     time.Now(),
+		evHash:    1469598103934665603,
+		ilHash:    1469598103934665603,
 	}
 }
 
